@@ -38,6 +38,7 @@ def gen_case(rng, tier):
     prof = G.default_profile(rng, tier)
     prof["relaunch"] = rng.choice([0, 0, 0.2])
     prof["switches"] = rng.choice([0, 0, 0, 0.3])  # two-way branches written as scf.index_switch
+    prof["partial"] = rng.choice([0, 0, 0.4])  # setups that only write some of the fields
     prof["local_callee"] = rng.choice([0, 0, 0.5])  # calls to a function of the module that sets up an accelerator itself
     prof["while_loops"] = rng.choice([0, 0, 0, 0.3])  # counted loops written as scf.while
     prof["memory"] = rng.choice([0, 0, 0, 0.4])  # some configuration values are kept in memory
@@ -99,6 +100,59 @@ def execute(case):
     out["nontrivial"] = bool(changed and launches)
     out["digest"] = digest_of(digests)
     return out
+
+
+def _guarded_pull(original):
+    """Counterfactual for attributing KF-C01-1: PullSetupOpsOutOfLoops only for loops that are known to iterate at least once
+    (constant bounds with ub > lb)."""
+    from xdsl.dialects import arith, builtin, scf
+
+    def match_and_rewrite(self, op, rewriter):
+        loop = op.parent_op()
+        if isinstance(loop, scf.ForOp):
+            vals = []
+            for b in (loop.lb, loop.ub):
+                o = b.owner
+                vals.append(o.value.value.data if isinstance(o, arith.ConstantOp) and isinstance(o.value, builtin.IntegerAttr) else None)
+            if vals[0] is None or vals[1] is None or vals[1] <= vals[0]:
+                return
+        return original(self, op, rewriter)
+
+    return match_and_rewrite
+
+
+def _kf_c01_1(case, outcome):
+    """the violation disappears when setup fields are only pulled out of loops that are known to run (and only then it is this
+    finding); the program must have a setup that does not write every field - otherwise every launch re-writes everything"""
+    if outcome.get("oracle") != "launch-history" or not _has_partial(case["ast"]["body"]):
+        return False
+    # ... and in the failing environment some loop really does not iterate
+    env = case["envs"][outcome.get("env_index") or 0]
+    src = G.emit(case["ast"])
+    P = compile_variant(src, pipelines(case)[0])
+    if not run_machine(P, env, accelerators_of(compile_variant(src, None)), "ref").probes.get("zero-trip-loop"):
+        return False
+    from snaxc.transforms.accfg_dedup import PullSetupOpsOutOfLoops
+
+    orig = PullSetupOpsOutOfLoops.match_and_rewrite
+    PullSetupOpsOutOfLoops.match_and_rewrite = _guarded_pull(getattr(orig, "__wrapped__", orig))
+    try:
+        again = execute(case)
+    finally:
+        PullSetupOpsOutOfLoops.match_and_rewrite = orig
+    return again["status"] == "ok"
+
+
+def _has_partial(body):
+    for st in body:
+        if st.get("omit"):
+            return True
+        if any(_has_partial(st.get(k, [])) for k in ("body", "then", "else", "gap")):
+            return True
+    return False
+
+
+TRIGGERS = {"setup_fields_pulled_out_of_a_loop_that_does_not_run": _kf_c01_1}
 
 
 def shrink(case):
